@@ -110,7 +110,13 @@ pub fn execute(sc: &dyn Scenario, seed: u64, tape: Tape, keep_trace: bool) -> Ru
     let (rec, nonzero) = tape::take_record();
     let (trace_hash, trace_events, trace_lines) = kernel::trace_result();
     let (outcome, panicked) = match res {
-        Ok(o) => (o, None),
+        Ok(mut o) => {
+            // The scenario is part of a violation's identity (known findings are per history class)
+            for v in &mut o.violations {
+                v.detail = format!("[{}] {}", sc.name(), v.detail);
+            }
+            (o, None)
+        }
         Err(e) => {
             let loc = LAST_PANIC_LOC.with(|l| l.borrow_mut().take()).unwrap_or_default();
             let msg = format!("{} at {}", panic_message(e), loc);
